@@ -25,6 +25,7 @@ Example::
 from __future__ import annotations
 
 import logging
+import math
 from collections import deque
 from dataclasses import dataclass
 from typing import TYPE_CHECKING
@@ -36,6 +37,12 @@ if TYPE_CHECKING:
     from happysimulator.core.event import Event
 
 logger = logging.getLogger(__name__)
+
+# Float amounts accumulate rounding residue (0.7 + 0.2 + 0.1 != 1.0).  Free
+# capacity and requested amount are compared up to this relative tolerance so
+# that a residue of a few ulps neither blocks a waiter forever nor makes a
+# legitimate release() raise.
+_FLOAT_REL_TOL = 1e-9
 
 
 @dataclass(frozen=True)
@@ -235,9 +242,9 @@ class Resource(Entity):
 
         future = SimFuture()
 
-        if self._available >= amount:
+        if self._fits(amount):
             # Immediate grant
-            self._available -= amount
+            self._take(amount)
             self._acquisitions += 1
             self._update_peak_utilization()
             grant = Grant(self, amount)
@@ -288,8 +295,8 @@ class Resource(Entity):
                 f"with capacity {self._capacity}"
             )
 
-        if self._available >= amount:
-            self._available -= amount
+        if self._fits(amount):
+            self._take(amount)
             self._acquisitions += 1
             self._update_peak_utilization()
             return Grant(self, amount)
@@ -302,13 +309,19 @@ class Resource(Entity):
         Called by Grant.release(). Raises if release would exceed capacity.
         """
         future_available = self._available + amount
+        if (
+            future_available > self._capacity
+            and isinstance(future_available, float)
+            and math.isclose(future_available, self._capacity, rel_tol=_FLOAT_REL_TOL)
+        ):
+            future_available = self._capacity  # rounding residue, not an over-release
         if future_available > self._capacity:
             raise ValueError(
                 f"releasing {amount} would exceed capacity "
                 f"({self._available} + {amount} > {self._capacity})"
             )
 
-        self._available += amount
+        self._available = future_available
         self._releases += 1
 
         logger.debug(
@@ -332,9 +345,9 @@ class Resource(Entity):
         while self._waiters:
             waiter = self._waiters[0]
 
-            if self._available >= waiter.amount:
+            if self._fits(waiter.amount):
                 self._waiters.popleft()
-                self._available -= waiter.amount
+                self._take(waiter.amount)
                 self._acquisitions += 1
                 self._update_peak_utilization()
 
@@ -354,6 +367,25 @@ class Resource(Entity):
             else:
                 # Not enough capacity for head-of-line waiter — stop
                 break
+
+    def _fits(self, amount: int | float) -> bool:
+        """True if ``amount`` fits the free capacity (floats: up to rounding residue)."""
+        if self._available >= amount:
+            return True
+        if isinstance(self._available, float) or isinstance(amount, float):
+            return math.isclose(
+                self._available,
+                amount,
+                rel_tol=_FLOAT_REL_TOL,
+                abs_tol=_FLOAT_REL_TOL * 1e-3 * self._capacity,
+            )
+        return False
+
+    def _take(self, amount: int | float) -> None:
+        """Remove ``amount`` from the free capacity, absorbing float residue at zero."""
+        self._available -= amount
+        if self._available < 0:
+            self._available = 0
 
     def _update_peak_utilization(self) -> None:
         """Update peak utilization tracking."""
